@@ -1822,6 +1822,20 @@ fn exec(ctx: &mut RunCtx, w: &mut World, op: &Op) -> Step<()> {
                     ctx.probe("subdirectories_nonempty");
                     w.lists_ok += 1;
                 }
+                // every listed path exists according to the filesystem's own existence queries:
+                // a listed sub-directory is a directory for directory_exists and exists for exists
+                for p in g.iter().take(6) {
+                    let d = ctx.mila("directory_exists", || fs.directory_exists(p, false))?;
+                    let e = ctx.mila("exists", || fs.exists(p, false))?;
+                    if !matches!(d, Ok(true)) || !matches!(e, Ok(true)) {
+                        return ctx.violation_for(
+                            "C13",
+                            "listing",
+                            "subdirectories|listed_path_does_not_exist".to_string(),
+                            format!("subdirectories({:?}) returned {:?} but directory_exists() says {:?} and exists() says {:?}", dir, p, d.map_err(|e| e.to_string()), e.map_err(|e| e.to_string())),
+                        );
+                    }
+                }
             }
             Ok(())
         }
